@@ -1,8 +1,10 @@
 package props
 
 import (
+	"bytes"
 	"context"
 	"fmt"
+	"gopkg.in/yaml.v2"
 	"sort"
 	"strings"
 	"testing"
@@ -370,7 +372,7 @@ func c11cases() []c11case {
 func TestC11(t *testing.T) {
 	rep := lib.NewReport("C11", "model_checking")
 	defer rep.Finish(t)
-	rep.Rule = "for every assignment of contents {absent,h1,h2(,h3)} to (split, path) over 1..3(4) splits uploaded one fake second apart (split IDs co- and counter-ordered with time) x 4 conflict modes: the real Diamond.Commit runs with the Gets of all split index files gated and the DFS releases them in every permutation; oracle = specification of the merge (latest upload wins; losers kept under their uploader; identical content never a conflict; forbid fails iff conflict; flags) + a 1-split diamond equals a plain upload; distinct = distinct (case, committed entry set)"
+	rep.Rule = "for every assignment of contents {absent,h1,h2(,h3)} to (split, path) over 1..3(4) splits uploaded one fake second apart (split IDs co- and counter-ordered with time) x 4 conflict modes: the real Diamond.Commit runs with the Gets of all split index files gated and the DFS releases them in every permutation; oracle = specification of the merge (latest upload wins; losers kept under their uploader; identical content never a conflict; forbid fails iff conflict; flags) + a 1-split diamond equals a plain upload; plus two splits with an overlapping path uploading CONCURRENTLY (blob and vmetadata calls gated, one fake second per call, all interleavings within the preemption bound) then a commit: recorded upload times lie between the file's blob write and the split's completion, and the later upload of the shared path wins; distinct = distinct (case, committed entry set)"
 	cases := c11cases()
 	hashes := c11hash(nil)
 	parent := lib.RunCases(t, rep, "TestC11", len(cases), 0, 120*time.Second, func(i int) {
@@ -394,7 +396,147 @@ func TestC11(t *testing.T) {
 	if parent {
 		rep.Set("cases", len(cases))
 		rep.Sample(map[string]interface{}{"case": cases[len(cases)/2].String()})
+		c11timing(t, rep)
 	}
+}
+
+// c11timing: two splits of one diamond upload CONCURRENTLY, with an overlapping path; every blob / vmetadata call is a
+// scheduling point and the fake clock advances one second after each of them, so every store call has its own second.
+// Oracle: (1) the upload time recorded for a file is not earlier than the write of the file's root blob and not later
+// than the write of the split's completion record; (2) after the commit, the overlapping path holds the content of the
+// split that recorded the later upload time, the other one is kept as a conflict.
+func c11timing(t *testing.T, rep *lib.Report) {
+	filesA := map[string][]byte{"a1": []byte("only in A, first"), "p": []byte("content of p uploaded by split A"), "a2": []byte("only in A, second")}
+	filesB := map[string][]byte{"p": []byte("content of p uploaded by split B (different)"), "b1": []byte("only in B")}
+	gates := map[string]func(string, string) bool{"blob": allCalls, "vmeta": allCalls}
+	sc := &lib.Scenario{Name: "splitA||splitB;commit"}
+	sc.Setup = func(x *lib.Exec) {
+		w := NewWorld()
+		x.Data["w"] = w
+		st := w.Stores()
+		if err := mkRepo(st, "r"); err != nil {
+			panic(err)
+		}
+		dd, err := core.CreateDiamond("r", st, core.DiamondLogger(nopLogger))
+		if err != nil {
+			panic(err)
+		}
+		x.Data["diamond"] = dd.DiamondID
+		x.Data["writes"] = map[string]time.Time{}
+		time.Sleep(time.Second)
+	}
+	sc.AfterGrant = func(x *lib.Exec, c *lib.Call, d lib.Decision) {
+		if c.Write && d == lib.Proceed {
+			x.Data["writes"].(map[string]time.Time)[fmt.Sprintf("c%d:%s:%s", c.Client, c.Store, c.Key)] = time.Now()
+		}
+		time.Sleep(time.Second)
+	}
+	mk := func(sid string, files map[string][]byte) lib.ClientFn {
+		return func(x *lib.Exec, id int) error {
+			w := x.Data["w"].(*World)
+			return splitAdd(w.Gated(x, id, gates), "r", x.Data["diamond"].(string), sid, files)
+		}
+	}
+	sc.Phases = [][]lib.ClientFn{{mk("sA", filesA), mk("sB", filesB)}, {func(x *lib.Exec, id int) error {
+		w := x.Data["w"].(*World)
+		time.Sleep(time.Second)
+		bid, err := diamondCommit(w.Stores(), "r", x.Data["diamond"].(string), model.EnableConflicts)
+		x.Data["bundle"] = bid
+		return err
+	}}}
+	sc.Final = func(x *lib.Exec) {
+		w := x.Data["w"].(*World)
+		if x.Hung {
+			x.Violate("C11|timing|hang", "never returned")
+			return
+		}
+		for i := 0; i < 3; i++ {
+			if x.ClientErr[i] != nil {
+				x.Violate("C11|timing|operation-failed", fmt.Sprintf("client %d: %v", i, x.ClientErr[i]))
+				return
+			}
+		}
+		writes := x.Data["writes"].(map[string]time.Time)
+		dID := x.Data["diamond"].(string)
+		stamp := map[string]time.Time{} // split -> upload time recorded for p
+		for ci, sid := range []string{"sA", "sB"} {
+			sd, err := core.GetSplit("r", dID, sid, w.Stores())
+			if err != nil || sd.State != model.SplitDone {
+				x.Violate("C11|timing|split-not-done", fmt.Sprintf("%s: %v", sid, err))
+				return
+			}
+			var doneAt time.Time
+			for k, tm := range writes {
+				if strings.HasPrefix(k, fmt.Sprintf("c%d:vmeta:", ci)) && strings.HasSuffix(k, "/split-done.yaml") {
+					doneAt = tm
+				}
+			}
+			for i := uint64(0); i < sd.SplitEntriesFileCount; i++ {
+				b, ok := w.VMeta.RawGet(model.GetArchivePathToSplitFileList("r", dID, sid, sd.GenerationID, i))
+				if !ok {
+					x.Violate("C11|timing|split-index-file-missing", sid)
+					return
+				}
+				var ents model.BundleEntries
+				if err := yaml.Unmarshal(b, &ents); err != nil {
+					x.Violate("C11|timing|split-index-file-unreadable", err.Error())
+					return
+				}
+				for _, e := range ents.BundleEntries {
+					if e.NameWithPath == "p" {
+						stamp[sid] = e.Timestamp
+					}
+					var wrote time.Time
+					for k, tm := range writes {
+						if strings.HasPrefix(k, fmt.Sprintf("c%d:blob:", ci)) && strings.Contains(k, e.Hash) {
+							wrote = tm
+						}
+					}
+					if !wrote.IsZero() && e.Timestamp.Before(wrote.Truncate(time.Second)) {
+						x.Violate("C11|timing|upload-time-precedes-the-upload", fmt.Sprintf("split %s file %q: recorded upload time %s, its root blob was written at %s", sid, e.NameWithPath, e.Timestamp.UTC().Format("15:04:05"), wrote.UTC().Format("15:04:05")))
+					}
+					if !doneAt.IsZero() && e.Timestamp.After(doneAt.Add(time.Second)) {
+						x.Violate("C11|timing|upload-time-after-split-completion", fmt.Sprintf("split %s file %q: recorded upload time %s, split completed at %s", sid, e.NameWithPath, e.Timestamp.UTC().Format("15:04:05"), doneAt.UTC().Format("15:04:05")))
+					}
+				}
+			}
+		}
+		ents, err := bundleEntries(w.Stores(), "r", x.Data["bundle"].(string))
+		if err != nil {
+			x.Violate("C11|timing|bundle-unreadable", err.Error())
+			return
+		}
+		out := "tie"
+		if !stamp["sA"].Equal(stamp["sB"]) {
+			winner, loser, wf := "sA", "sB", filesA
+			if stamp["sB"].After(stamp["sA"]) {
+				winner, loser, wf = "sB", "sA", filesB
+			}
+			out = "winner=" + winner
+			dest := lib.NewMemStore("dest")
+			dest.NoCRC, dest.NoJournal = true, true
+			if _, derr := downloadBundle(w.Stores(), "r", x.Data["bundle"].(string), dest, 0); derr != nil {
+				x.Violate("C11|timing|bundle-not-downloadable", derr.Error())
+				return
+			}
+			snap := dest.Snapshot()
+			if !bytes.Equal(snap["p"], wf["p"]) {
+				x.Violate("C11|timing|older-upload-wins", fmt.Sprintf("p was uploaded by sA at %s and by sB at %s; the bundle holds %q", stamp["sA"].UTC().Format("15:04:05"), stamp["sB"].UTC().Format("15:04:05"), snap["p"]))
+			}
+			if _, ok := ents[".conflicts/"+loser+"/p"]; !ok {
+				x.Violate("C11|timing|losing-version-not-kept", fmt.Sprintf("no .conflicts/%s/p entry; entries %v", loser, ents))
+			}
+		}
+		x.SetOutcome(out)
+	}
+	pb := 1
+	if lib.Thorough() {
+		pb = 2
+	}
+	e := &lib.Explorer{Sc: sc, PreemptBound: pb, MaxExecs: 100000, Budget: 10 * time.Minute}
+	e.Explore(t, rep)
+	rep.Set("executions:"+sc.Name, e.Execs)
+	rep.Set("timing_preemption_bound", pb)
 }
 
 // c11orderShape classifies how the committed entry sets of different arrival orders differ: in the main tree, or only
